@@ -14,6 +14,7 @@ import tempfile
 
 from lib import luagen as L
 from lib import reflex
+from lib import core
 from lib.core import ShardResult, h64
 from props import c08
 
@@ -76,7 +77,7 @@ def minify(src, config, res=None, chunks=None, obj=None):
     `obj` = an already loaded Lua object for the same source (the three configurations share one load)."""
     lua = lua_mod()
     if obj is None:
-        obj = lua.Lua.from_lines(chunks or [src], version=8)
+        obj = lua.Lua.from_lines(chunks or [src], version=core.lua_version(src))
     w = lua.LuaMinifyTokenWriter(tokens=obj.tokens, root=obj.root, args=writer_args(config))
     gen = w.to_lines()
     out = []
@@ -328,7 +329,7 @@ EXTRA = [b'x=1 -- c\ny=2\n', b'x=1 // c\ny=2\n', b'if (a) b=1 -- c\nc=2\n', b'if
 
 def shards(tier, seed):
     items = c08.program_shards(tier, seed, tag='c01')
-    items += [('extra',), ('cli', tier)]
+    items += [('extra',), ('cli', tier)] + [('stringpairs', k, 4) for k in range(4)]
     return items
 
 
@@ -363,6 +364,19 @@ def run_shard(item):
         for src in EXTRA:
             for cfg in CONFIGS:
                 run_one(None, src, cfg, res, 'extra')
+    elif kind == 'stringpairs':
+        # all ordered pairs of string literals in one program (and one process): writer-side memory of one literal
+        # must not leak into the spelling of the next
+        from props import c06
+        n = 0
+        for a in c06.STRING_LITS:
+            for b in c06.STRING_LITS:
+                n += 1
+                if n % item[2] != item[1]:
+                    continue
+                for src in (b'x=' + a + b' y=' + b + b'\n', b'f(' + a + b',' + b + b')\n'):
+                    run_one(None, src, CONFIGS[n % 3], res, 'extra')
+        res.sample({'family': 'stringpairs', 'src': b"x='say \"hi\"' y=\"say \\\"hi\\\"\"\n"})
     elif kind == 'cli':
         cli_batch(res, item[1])
     return res
